@@ -431,5 +431,18 @@ func runC19(input string) string {
 	if ok {
 		r = "T;"
 	}
-	return r + show() + ";" + own + ";" + bufs
+	obs := r + show() + ";" + own + ";" + bufs
+	// the stored text must stay what it is while later, unrelated conversions run (no scratch memory handed out):
+	// three more unbuffered conversions into other destinations, then the destination is read again
+	if ok && text != nil {
+		var o1, o2 string
+		var o3 []byte
+		inspector.Assign(&o1, 987654321012345)
+		inspector.Assign(&o2, 0.5)
+		inspector.Assign(&o3, true)
+		if again := r + show() + ";" + own + ";" + bufs; again != obs {
+			return obs + ";UNSTABLE:" + show()
+		}
+	}
+	return obs
 }
